@@ -111,3 +111,18 @@ class _(Contract):
                 "classes": L.forall(2, lambda v, x: L.Implies(g.N(v), res.val(v).has(x) == L.And(rD(x, v), rD(v, x)))),
                 "singletons-when-acyclic": L.Implies(L.forall(2, lambda p, q: L.Not(L.And(g.D(p, q), rD(q, p)))),
                                                      L.forall(2, lambda v, x: L.Implies(L.And(g.N(v), res.val(v).has(x)), x == v)))}
+
+
+def augmented(ex, g, C, sigma, l, m, r):
+    """the triple test with the one-step backtrack: the plain test, or through some neighbour n != m of the middle node:
+    (l, m, n), (m, n, m) and (n, m, r) all pass"""
+    L = ex.L
+    nb = lambda n: L.And(n != m, L.Or(g.D(m, n), g.D(n, m), g.U(m, n)))
+    return L.Or(helper(ex, g, C, sigma, l, m, r),
+                L.exists(1, lambda n: L.And(nb(n), helper(ex, g, C, sigma, l, m, n), helper(ex, g, C, sigma, m, n, m),
+                                            helper(ex, g, C, sigma, n, m, r))))
+
+
+_triple("_triple_has_correct_form", lambda ex, a: augmented(ex, a.graph, a.conditions, a.sigma, a.left.t, a.middle.t, a.right.t),
+        extra_clause=lambda ex, a: {"mirror-symmetric": augmented(ex, a.graph, a.conditions, a.sigma, a.left.t, a.middle.t, a.right.t)
+                                    == augmented(ex, a.graph, a.conditions, a.sigma, a.right.t, a.middle.t, a.left.t)})
